@@ -72,13 +72,7 @@ impl ProcfsResolver {
 }
 //@item src/procfs.rs :: enum ProcfsBase | sub.ProcfsBase
 impl ProcfsBase {
-//@frozen src/procfs.rs :: impl ProcfsBase fn into_path
-    /// procfs.rs ProcfsBase::into_path (not extracted: iterator chain with closures; assumed):
-    /// a relative path without '..' ("." / "self" / "thread-self" / "self/task/<tid>")
-    #[verifier::external_body]
-    pub fn into_path(self, proc_root: Option<BorrowedFd<'_>>) -> (r: PathBuf)
-        requires proc_root is Some,        // [C05+C06+C09.into_path.candidates_probed_on_the_handles_own_root_never_the_host_proc]
-    { unimplemented!() }
+//@use procfs.ProcfsBase.into_path u14
 }
 impl Clone for ProcfsBase { fn clone(&self) -> (r: Self) ensures r == *self { *self } }
 impl Copy for ProcfsBase {}
